@@ -824,9 +824,11 @@ impl Parser {
                 }
             }
 
-            Some((_, Token::Operator(Operator::Star))) => {
+            Some((pos, Token::Operator(Operator::Star))) => {
+                let pos = *pos;
                 self.next()?;
-                let typ = self.qualified_ident(None)?;
+                let typ = Box::new(self.qualified_ident(None)?);
+                let typ = ast::Expression::TypePointer(ast::PointerType { pos, typ });
                 let tag = self.string_literal_or_none()?;
                 let comments = self.drain_comments();
                 Ok(ast::Field { name: vec![], typ, tag, comments })
